@@ -561,7 +561,8 @@ type GrammarPlan struct {
 	Cover       [2]int // quick, thorough: transition / near-miss cover
 	NDocs       [2]int
 	TraceModule string
-	PrinterKind string // "query" | "schemadoc": how Printer.tla's own parser reads a text of this grammar
+	PrinterKind string   // "query" | "schemadoc": how Printer.tla's own parser reads a text of this grammar
+	HandTexts   []string // hand-written texts decided by the trace specification like the generated ones
 	ClassOf     func(lexer.Token) string
 	MutPool     []string
 	// Gen produces document i: its tree, its tokens, and whether a grammar fault was injected on purpose.
@@ -657,6 +658,9 @@ func runGrammarCheck(c *core.Ctx, gb *GrammarBind, plan GrammarPlan) {
 			mt, _ := MutateTokens(toks, rng, plan.MutPool)
 			add(RenderIgnored(mt, rng))
 		}
+	}
+	for _, t := range plan.HandTexts {
+		add(t)
 	}
 	cfg := "SPECIFICATION Spec\nCONSTANTS\n  Devs = " + core.DevSetTLA(devs) + "\nCHECK_DEADLOCK FALSE\n"
 	bad, ok := RunTrace(c, TraceJob{Module: plan.TraceModule, CfgText: cfg, Lines: lines, Events: events, Shards: 12, Stack: "256m"})
